@@ -140,6 +140,86 @@ theorem readInstanceSkel_ok {R B K D : Nat} {lookup : IS → Nat} {rd rc tok ski
             exact ⟨_, rfl, by simp only []; omega, fin _ _ (by simp only []; omega) (by simp only []; omega)⟩
           · exact ⟨_, rfl, by simp only []; omega, fin _ _ (by simp only []; omega) (by simp only []; omega)⟩
 
+/-- The one-record slip as a bound.  When the record reader may go beyond the end of its record but never beyond the end of
+the **next** one (`SkipInstance` applied twice from the record's start) — what the repaired scans guarantee even when the
+character `STEPread` gave up on was the record's own `;` — one `ReadInstance` costs at most its own record twice and the
+next record once: the loop's potential pays it up to `K + 8`, plus `4·|next record|`, plus the reserve `R` once when the
+input ends there. -/
+theorem readInstanceSkel_slip {R B K D : Nat} {lookup : IS → Nat} {rd rc tok skip : IS → Out LoopRes}
+    (hrc : StageOk R rc 1 B) (ht : StageOk R tok 1 B) (hs : StageOk R skip 1 B) (hrd : StageOk R rd K B)
+    (hstay2 : ∀ s r rs rs2 sk, s.m ≤ B → rd s = .ok r → skip { s with skipws := sk } = .ok rs → skip rs.s = .ok rs2 →
+      rs2.s.m ≤ r.s.m) :
+    ∀ s, s.m ≤ B → ∃ r, readInstanceSkel lookup rd rc tok skip s = .ok r ∧ r.s.m ≤ s.m ∧
+      ∀ nx, skip r.s = .ok nx →
+        r.steps + dataPot D R r.s ≤ dataPot D R s + (K + 8) + 4 * (r.s.m - nx.s.m) + (if nx.s.m = 0 then R else 0) := by
+  intro s hB
+  have fin : ∀ (st : Nat) (x : IS), x.m ≤ s.m → st + pot R x ≤ pot R s + (K + 8) →
+      ∀ nx : LoopRes, st + dataPot D R x ≤ dataPot D R s + (K + 8) + 4 * (x.m - nx.s.m) + (if nx.s.m = 0 then R else 0) := by
+    intro st x hm h nx
+    have := dataPot_close (D := D) hm h
+    omega
+  unfold readInstanceSkel
+  obtain ⟨r0, a0, b0, c0⟩ := hrc s hB
+  rw [a0]
+  simp only []
+  have hx := extractInt_m r0.s
+  have hpx := pot_mono (R := R) hx
+  split
+  · obtain ⟨r, a, b, c⟩ := hs r0.s.extractInt (by omega)
+    rw [a]
+    exact ⟨_, rfl, by simp only []; omega, fun nx _ => fin _ _ (by simp only []; omega) (by simp only []; omega) nx⟩
+  · obtain ⟨r1, a1, b1, c1⟩ := ht r0.s.extractInt (by omega)
+    rw [a1]
+    simp only []
+    have hg := get_m_le r1.s
+    have hpg := pot_mono (R := R) hg
+    split
+    · obtain ⟨r, a, b, c⟩ := hs (r1.s.get).1 (by omega)
+      rw [a]
+      exact ⟨_, rfl, by simp only []; omega, fun nx _ => fin _ _ (by simp only []; omega) (by simp only []; omega) nx⟩
+    · obtain ⟨r2, a2, b2, c2⟩ := ht (r1.s.get).1 (by omega)
+      rw [a2]
+      simp only []
+      obtain ⟨r3, a3, b3, c3⟩ := hrd r2.s (by omega)
+      rw [a3]
+      simp only []
+      split
+      · exact ⟨_, rfl, by simp only []; omega, fun nx _ => fin _ _ (by simp only []; omega) (by simp only []; omega) nx⟩
+      · split
+        · -- a value was mis-read: the record is scanned again from its start
+          have hmk := skipws_m r2.s r3.s.skipws
+          obtain ⟨r, a, b, c⟩ := hs { r2.s with skipws := r3.s.skipws } (by rw [hmk]; omega)
+          rw [a]
+          simp only []
+          have hpk : pot R ({ r2.s with skipws := r3.s.skipws } : IS) = pot R r2.s := by simp [pot, hmk]
+          rw [hpk] at c
+          rw [hmk] at b
+          have hDm := mul_mono' D (show r.s.m ≤ s.m by omega)
+          refine ⟨_, rfl, by simp only []; omega, ?_⟩
+          intro nx hnx
+          obtain ⟨nx', anx, bnx, _⟩ := hs r.s (by omega)
+          have hnx' : skip r.s = .ok nx := hnx
+          rw [anx] at hnx'
+          cases hnx'
+          have hst := hstay2 r2.s r3 r nx r3.s.skipws (by omega) a3 a anx
+          simp only [dataPot, bigPot]
+          by_cases h3 : r3.s.m = 0
+          · have hd := pot_diff (R := R) b3
+            have hn0 : nx.s.m = 0 := by omega
+            rw [if_pos hn0]
+            omega
+          · have hd := pot_diff_alive (R := R) (show 1 ≤ r3.s.m by omega) b3
+            have : 0 ≤ (if nx.s.m = 0 then R else 0) := Nat.zero_le _
+            omega
+        · have hpk := peek_m r3.s
+          have hpp := pot_mono (R := R) hpk
+          split
+          · have hex := extract_m (r3.s.peek).1
+            have hxm : ((r3.s.peek).1.extract).1.m ≤ r3.s.m := by rcases hex with hh | hh <;> omega
+            have hpe := pot_mono (R := R) hxm
+            exact ⟨_, rfl, by simp only []; omega, fun nx _ => fin _ _ (by simp only []; omega) (by simp only []; omega) nx⟩
+          · exact ⟨_, rfl, by simp only []; omega, fun nx _ => fin _ _ (by simp only []; omega) (by simp only []; omega) nx⟩
+
 theorem instOrSkip_okD {D R B K E : Nat} {rd skip : IS → Out LoopRes}
     (hrd : ∀ s, s.m ≤ B → ∃ r, rd s = .ok r ∧ r.s.m ≤ s.m ∧
       r.steps + dataPot D R r.s ≤ dataPot D R s + K + (if r.s.m = 0 then E else 0))
